@@ -192,6 +192,10 @@ inline Rational ratFromString(const char* desc)
             res = Rational(desc + 1);
          else
             res = Rational(desc);
+
+         // "1/0" is accepted by the underlying string conversion and yields an invalid number
+         if(denominator(res) == 0)
+            throw std::invalid_argument("rational number with zero denominator");
       }
       /* case 2: string is given as base-10 decimal number */
       else
